@@ -800,3 +800,45 @@ func reachedOnlyFrom(c *Ctx, f *ssa.Function, root string, seen map[*ssa.Functio
 	}
 	return n > 0
 }
+
+// checkFamilySeparation is R01.10 (shared with C04 and C09): the address pair the frame parser builds from an IPv6 header keeps
+// the addresses as IPv6 addresses. Unmapping them would make `::ffff:a.b.c.d` equal to the IPv4 address a.b.c.d, and every driver
+// decides "from the target / on this flow" by comparing these pairs: an IPv6 packet with v4-mapped addresses would then be taken
+// for a reply of an IPv4 run (a destination reply from another address, another flow credited to a probe, a wrong-family packet
+// that changes the result instead of being skipped).
+func checkFamilySeparation(c *Ctx) {
+	R := c.R
+	n := 0
+	for _, f := range c.P.ModFuncs {
+		if core.ShortPkg(core.FuncPkg(f)) != "packets" || len(f.Blocks) == 0 || f.Signature.Results().Len() == 0 {
+			continue
+		}
+		if nt, ok := f.Signature.Results().At(0).Type().(*types.Named); !ok || nt.Obj().Name() != "IPPair" {
+			continue
+		}
+		v6 := false
+		for _, p := range f.Params {
+			if pt, ok := p.Type().(*types.Pointer); ok {
+				if nt, ok := pt.Elem().(*types.Named); ok && nt.Obj().Name() == "IPv6" && nt.Obj().Pkg() != nil && strings.HasSuffix(nt.Obj().Pkg().Path(), "gopacket/layers") {
+					v6 = true
+				}
+			}
+		}
+		if !v6 {
+			continue
+		}
+		n++
+		fn := core.FuncName(f)
+		bad := ""
+		for _, ip := range InlinedPaths(c.P, f, inlineOpts{pkg: core.FuncPkg(f), openAll: true}) {
+			if len(ip.Results) == 0 {
+				continue
+			}
+			if ip.Results[0].Has(func(x *core.Term) bool { return x.Op == "call" && x.Name == "(netip.Addr).Unmap" }) {
+				bad = ip.Results[0].String()
+			}
+		}
+		R.Check(bad == "", "R01.10", fn+"#family-kept", f.Pos(), fn, "the pair built from an IPv6 header keeps IPv6 addresses (no Unmap)", "the address pair built from an IPv6 header is unmapped ("+bad+"): an IPv6 packet from ::ffff:a.b.c.d then compares equal to the IPv4 address a.b.c.d, so it passes the target / flow comparisons of an IPv4 run - a reply of the wrong family creates or marks a hop instead of being skipped")
+	}
+	R.Floor("R01.10:v6-pair-builders", n, 1)
+}
